@@ -242,6 +242,10 @@ fn run(case: &Case, dir: &str) -> Verdict {
             break;
         }
     }
+    if v.violation.is_none() {
+        v.extra_out = json!({"commits": n_commits, "legacy": legacy, "newest_slot": newest.slot, "images_in_this_run": ex.images,
+            "sample_damage": {"slot": newest.slot, "off": fsck::REC_OFF + 56, "what": "xor01 (a byte of the transaction id)"}});
+    }
     v.counters = ex.counters.clone();
     v.counters.insert("images".into(), ex.images);
     v.sim_events = simos::total_calls();
